@@ -12,10 +12,20 @@ the start string (`[key(c) for c in w]` compared as Python lists) and sorted —
 successors, decreasing for predecessors; infinite languages must be refused by the
 predecessor direction with InfiniteLanguageException.
 
-Domain (DESIGN.md §7 C14): start strings over the (non-empty) alphabet; a max length whenever
-the language is infinite (forward direction); injective keys.  Start strings with a foreign
-symbol (KeyError, F13), empty alphabets (IndexError, F14) and non-injective keys are run in
-a separate stream whose results are only counted.
+Domain of the positive theorems: start strings over the (non-empty) alphabet; a max length
+whenever the language is infinite (forward direction); injective keys.  Start strings with a
+foreign symbol (KeyError, F13) and empty alphabets (IndexError, F14) are INSIDE the literal
+statement ("not even readable … handled like any other", "every DFA"): a dedicated probe family
+produces them on every run and reports them as property failures under the open finding keys
+`C14:start-string-with-foreign-symbol` and `C14:empty-alphabet` (negative theorems
+C14_foreign_start_raises / C14_empty_alphabet); the model must agree with the code there too.
+Non-injective keys (not an ordering) are run in a separate stream whose results are only counted.
+
+The `key` argument is passed as the code sees it in practice: `None` (the default every ordinary
+caller uses; half of the cases whose ordering is the code-point order), an int-valued lambda, a
+tuple-valued or a str-valued callable inducing the same ranking.  Part of the generators are
+consumed in two pieces with `clear_cache()` / other queries on the same object in between
+(partially consumed generators, see also C20).
 """
 from __future__ import annotations
 
@@ -27,18 +37,23 @@ from automata.fa.dfa import DFA
 from harness import gen
 from harness import dfa_query_lib as L
 from harness.common import guarded as case_guard
-from harness.common import Ctx, Toks, call, enc_dfa, toks
+from harness.common import Ctx, InfraError, Toks, call, enc_dfa, toks
 
 LEVEL = "proof"
-RULE = ("cases = (valid DFA, start string or None, strict, key order, direction, min_length, max_length, "
-        "number of words requested); corpus (F2 triggers, mutant killers), all DFAs with ≤2 states over "
-        "{a,b} × {None + all start strings of length ≤3} × both directions × windows/strictness/key orders "
-        "(sampled in the quick tier, complete in the thorough tier), then shaped random DFAs (≤6 states) "
-        "with random starts (accepted words, prefixes, unreadable, longer than max_length); a case is "
+RULE = ("cases = (valid DFA, start string or None, strict, key (None / int- / tuple- / str-valued callable), direction, "
+        "min_length, max_length, number of words requested, optionally: generator consumed in two pieces around other "
+        "calls on the same object); corpus (F2 triggers, mutant killers), probes of the two open findings (foreign symbol "
+        "in the start string, empty alphabet), all DFAs with ≤2 states over {a,b} × {None + all start strings of length "
+        "≤3} × both directions × windows/strictness/key orders (sampled in the quick tier, complete in the thorough "
+        "tier), then shaped random DFAs (≤6 states) whose start and window are aimed at an accepted word in 70 % of the "
+        "cases (starts: None, '', accepted words, prefixes, extensions, unreadable, longer than max_length); a case is "
         "non-trivial when the DFA has ≥2 states and the expected output is non-empty; distinct = distinct "
         "(definition, arguments)")
+F13_KEY = "C14:start-string-with-foreign-symbol"
+F14_KEY = "C14:empty-alphabet"
+
 ASSUMPTIONS = [
-    "start strings use only symbols of a non-empty alphabet (foreign symbol → KeyError: F13; empty alphabet → IndexError: F14)",
+    "positive theorems: start strings use only symbols of a non-empty alphabet; outside that the code fails (foreign symbol → KeyError: open finding F13; empty alphabet → IndexError: open finding F14), reproduced and reported on every run",
     "forward direction on an infinite language is only used with max_length (otherwise the generator need not produce a next word)",
     "the key is injective on the alphabet (a symbol ordering); no state is literally None",
 ]
@@ -55,41 +70,119 @@ def guarded(f):
     return L.guarded(f, TIMEOUT_S)
 
 
+def key_callable(p: dict):
+    """The `key=` argument handed to the real code: None, or a callable with int / tuple / str
+    values that induces the ranking of p["key"] (a dict symbol → int)."""
+    mode = p.get("keymode", "int")
+    km = p["key"]
+    if mode in ("none", "none_explicit"):
+        return None
+    if mode == "int":
+        return lambda c: km[c]
+    rank = {v: i for i, v in enumerate(sorted(set(km.values())))}
+    if mode == "tuple":
+        return lambda c: (rank[km[c]] // 2, rank[km[c]] % 2)
+    if mode == "str":
+        return lambda c: "k" + chr(97 + rank[km[c]])
+    raise InfraError(f"unknown key mode {mode}")
+
+
+def codepoint_order(symbols, km: dict) -> bool:
+    """Does the key map induce exactly the default ordering (key=None: code points)?"""
+    sy = sorted(symbols)
+    return len(set(km.values())) == len(km) and sorted(sy, key=lambda c: km[c]) == sy
+
+
+def pick_keymode(rng, symbols, km: dict) -> str:
+    if codepoint_order(symbols, km) and rng.random() < 0.5:
+        return rng.choice(["none", "none", "none_explicit"])
+    return rng.choice(["int", "int", "int", "tuple", "str"])
+
+
 def kwargs_of(p: dict) -> dict:
-    return dict(strict=p["strict"], key=L.real_key(p["key"]), min_length=p["min"], max_length=p["max"])
+    kw = dict(strict=p["strict"], min_length=p["min"], max_length=p["max"])
+    mode = p.get("keymode", "int")
+    if mode == "none":
+        return kw                       # the keyword is left out altogether (the default)
+    kw["key"] = None if mode == "none_explicit" else key_callable(p)
+    return kw
+
+
+def open_successors(c: DFA, p: dict):
+    return c.successors(p["start"], reverse=p["reverse"], **kwargs_of(p))
 
 
 def real_successors(d: DFA, p: dict):
     c = d.copy()
-    g = lambda: list(itertools.islice(c.successors(p["start"], reverse=p["reverse"], **kwargs_of(p)), p["n"]))
+    g = lambda: list(itertools.islice(open_successors(c, p), p["n"]))
     return guarded(g)
 
 
+BETWEEN = ["clear_cache", "count", "words", "isfinite", "other_generator", "same_generator_again"]
+
+
+def do_between(c: DFA, p: dict, what: str):
+    """Another public call on the same object while a successors generator is suspended."""
+    try:
+        if what == "clear_cache":
+            c.clear_cache()
+        elif what == "count":
+            c.count_words_of_length(3)
+        elif what == "words":
+            list(c.words_of_length(2))
+        elif what == "isfinite":
+            c.isfinite()
+        elif what == "other_generator":
+            next(c.successors(None, reverse=not p["reverse"], max_length=2), None)
+        elif what == "same_generator_again":
+            next(open_successors(c, p), None)
+    except Exception:  # noqa: BLE001 - e.g. InfiniteLanguageException of the *other* generator
+        pass
+
+
+def real_successors_split(d: DFA, p: dict):
+    """The same generator consumed in two pieces (p["split"] = {cut, between}) with other public
+    calls on the same object while it is suspended: must deliver what one islice delivers."""
+    c = d.copy()
+    sp = p["split"]
+
+    def run():
+        g = open_successors(c, p)
+        part1 = list(itertools.islice(g, min(sp["cut"], p["n"])))
+        for b in sp["between"]:
+            do_between(c, p, b)
+        return part1 + list(itertools.islice(g, max(p["n"] - sp["cut"], 0)))
+    return guarded(run)
+
+
 def real_wrappers(d: DFA, p: dict):
-    """successor / predecessor (single step) and, for the reverse direction with a str start,
-    predecessors()."""
+    """successor / predecessor (single step) and, for the reverse direction, predecessors()
+    (the wrappers pass the start through unchanged, so None is accepted there too)."""
     c = d.copy()
     out = {}
     if p["reverse"]:
-        if p["start"] is not None:
-            out["first"] = guarded(lambda: c.predecessor(p["start"], **kwargs_of(p)))
-            c2 = d.copy()
-            out["predecessors"] = guarded(lambda: list(itertools.islice(c2.predecessors(p["start"], **kwargs_of(p)), p["n"])))
+        out["first"] = guarded(lambda: c.predecessor(p["start"], **kwargs_of(p)))
+        c2 = d.copy()
+        out["predecessors"] = guarded(lambda: list(itertools.islice(c2.predecessors(p["start"], **kwargs_of(p)), p["n"])))
     else:
         out["first"] = guarded(lambda: c.successor(p["start"], **kwargs_of(p)))
     return out
 
 
-def in_domain(d: DFA, p: dict, shape: dict) -> bool:
+def domain_kind(d: DFA, p: dict, shape: dict) -> str:
     if not d.input_symbols:
-        return False
+        return "empty_alphabet"
     if p["start"] is not None and any(ch not in d.input_symbols for ch in p["start"]):
-        return False
+        return "foreign_symbol"
     if len(set(p["key"].values())) != len(p["key"]):
-        return False
+        return "non_injective_key"
     if not p["reverse"] and not shape["finite"] and p["max"] is None:
-        return False
-    return True
+        return "forward_infinite_without_max"
+    return "in"
+
+
+def in_domain(d: DFA, p: dict, shape: dict) -> bool:
+    return domain_kind(d, p, shape) == "in"
 
 
 def expected_of(d: DFA, p: dict, shape: dict):
@@ -112,6 +205,7 @@ def prop_succ(d: DFA, p: dict, shape: dict):
             bad.append(f"predecessor() on an infinite language gave {wr['first']}, expected {exp}")
         if "predecessors" in wr and p["n"] > 0 and wr["predecessors"] != exp:
             bad.append(f"predecessors() on an infinite language gave {str(wr['predecessors'])[:160]}")
+        want = exp if p["n"] > 0 else ("ok", [])
     else:
         full = exp[1]
         want = ("ok", full[: p["n"]])
@@ -124,6 +218,47 @@ def prop_succ(d: DFA, p: dict, shape: dict):
                 bad.append(f"{'predecessor' if p['reverse'] else 'successor'}() = {wr['first']}, expected {w1}")
         if "predecessors" in wr and wr["predecessors"] != want:
             bad.append(f"predecessors(): first {p['n']} words = {str(wr['predecessors'])[:200]}, expected {str(want)[:200]}")
+    if p.get("split"):
+        gs = real_successors_split(d, p)
+        if gs != want:
+            bad.append(f"generator consumed in two pieces ({p['split']}) delivered {str(gs)[:200]}, expected {str(want)[:200]}")
+    return bad, dict(got=got, wrappers=wr, expected=exp)
+
+
+def prop_finding(d: DFA, p: dict, shape: dict, kind: str):
+    """The two input classes on which the code is known to fail (F13 foreign symbol in the start
+    string, F14 empty alphabet).  The property asks for the sorted filter of the window set (or
+    InfiniteLanguageException for reverse on an infinite language) like for any other input; an
+    exception is a failure.  Returns ([(message, finding_key)], observations)."""
+    got = real_successors(d, p)
+    wr = real_wrappers(d, p)
+    bad = []
+    known = {"foreign_symbol": ("KeyError", F13_KEY), "empty_alphabet": ("IndexError", F14_KEY)}[kind]
+    if p["reverse"] and not shape["finite"]:
+        exp = ("err", "InfiniteLanguageException")
+    elif not shape["finite"] and p["max"] is None:
+        exp = None      # forward, infinite language, no max length: only "no exception" is required
+    elif kind == "empty_alphabet" or codepoint_order(d.input_symbols, p["key"]):
+        km = dict(p["key"]) if kind == "empty_alphabet" else {c: ord(c) for c in set(d.input_symbols) | set(p["start"] or "")}
+        exp = ("ok", L.succ_oracle(d, p["start"], p["strict"], km, p["reverse"], p["min"], p["max"], shape))
+    else:
+        exp = None      # a custom key says nothing about the foreign symbol: only "no exception" is required
+    def judge(label, r, want):
+        if r[0] == "err" and (want is None or want[0] == "ok"):
+            fk = known[1] if r[1] == known[0] else None
+            bad.append((f"{label} raised {r[1]} (the property asks for the words of the window set "
+                        f"{'after' if not p['reverse'] else 'before'} the start string)", fk))
+        elif want is not None and r != want:
+            bad.append((f"{label} = {str(r)[:160]}, expected {str(want)[:160]}", None))
+    if p["n"] > 0 or (exp and exp[0] == "ok"):
+        want = None if exp is None else (exp if exp[0] == "err" else ("ok", exp[1][: p["n"]]))
+        if p["n"] > 0:
+            judge(f"successors(reverse={p['reverse']})", got, want)
+            if "predecessors" in wr:
+                judge("predecessors()", wr["predecessors"], want)
+    if "first" in wr:
+        want1 = None if exp is None else (exp if exp[0] == "err" else ("ok", exp[1][0] if exp[1] else None))
+        judge("predecessor()" if p["reverse"] else "successor()", wr["first"], want1)
     return bad, dict(got=got, wrappers=wr, expected=exp)
 
 
@@ -169,38 +304,11 @@ def describe(d: DFA, p: dict) -> dict:
     return dict(automaton=repr(d), params=p)
 
 
-@case_guard
-def check_case(ctx: Ctx, d: DFA, enc: str, sy, shape: dict, p: dict, origin: str):
-    if not in_domain(d, p, shape):
-        return stat_only(ctx, d, enc, sy, shape, p)
-    bad, obs = prop_succ(d, p, shape)
-    exp = obs["expected"]
-    nontrivial = len(d.states) >= 2 and exp[0] == "ok" and len(exp[1]) >= 1
-    ctx.case((enc, json.dumps(p, sort_keys=True)) if nontrivial else None)
-    ctx.stat(f"origin:{origin}")
-    ctx.stat("dir:reverse" if p["reverse"] else "dir:forward")
-    if p["start"] is None:
-        ctx.stat("start:None")
-    elif p["start"] == "":
-        ctx.stat("start:empty")
-    else:
-        acc = d.accepts_input(p["start"])
-        ctx.stat("start:accepted" if acc else ("start:readable_not_accepted" if readable(d, p["start"]) else "start:unreadable"))
-        if p["max"] is not None and len(p["start"]) > p["max"]:
-            ctx.stat("start:longer_than_max")
-    if exp[0] == "err":
-        ctx.stat("expect:InfiniteLanguageException")
-    else:
-        ctx.stat("expect:empty_output" if not exp[1] else ("expect:prefix" if p["n"] <= len(exp[1]) else "expect:exhausted"))
-    for b in bad:
-        ctx.prop_fail(f"successors{p}: {b}", dict(describe(d, p), what=b), None)
-    if ctx.evaluations % 2999 == 1:
-        ctx.sample(dict(describe(d, p), real=obs["got"], expected=exp))
+def compare_with_model(ctx: Ctx, d: DFA, enc: str, sy, p: dict, obs: dict) -> None:
+    """Correspondence: first n words / exception class / exhaustion flag / single-step result."""
     m = model_succ(ctx, enc, sy, p)
     if m["end"] == "outOfFuel":
         ctx.stat("model:outOfFuel")
-        return
-    if bad:
         return
     got = obs["got"]
     mo = model_as_observation(m, p["n"])
@@ -217,17 +325,72 @@ def check_case(ctx: Ctx, d: DFA, enc: str, sy, shape: dict, p: dict, origin: str
         ctx.corr_diff("SUCCS first", describe(d, p), obs["wrappers"]["first"], m["first"])
 
 
+@case_guard
+def check_case(ctx: Ctx, d: DFA, enc: str, sy, shape: dict, p: dict, origin: str):
+    kind = domain_kind(d, p, shape)
+    if kind in ("foreign_symbol", "empty_alphabet"):
+        return finding_case(ctx, d, enc, sy, shape, p, kind)
+    if kind != "in":
+        return stat_only(ctx, d, enc, sy, shape, p)
+    bad, obs = prop_succ(d, p, shape)
+    exp = obs["expected"]
+    nontrivial = len(d.states) >= 2 and exp[0] == "ok" and len(exp[1]) >= 1
+    ctx.case((enc, json.dumps(p, sort_keys=True)) if nontrivial else None)
+    ctx.stat(f"origin:{origin}")
+    ctx.stat("dir:reverse" if p["reverse"] else "dir:forward")
+    ctx.stat(f"key:{p.get('keymode', 'int')}")
+    if p.get("split"):
+        ctx.stat("consumed:in_two_pieces")
+    if p["start"] is None:
+        ctx.stat("start:None")
+    elif p["start"] == "":
+        ctx.stat("start:empty")
+    else:
+        acc = d.accepts_input(p["start"])
+        ctx.stat("start:accepted" if acc else ("start:readable_not_accepted" if readable(d, p["start"]) else "start:unreadable"))
+        if p["max"] is not None and len(p["start"]) > p["max"]:
+            ctx.stat("start:longer_than_max")
+    ctx.stat(f"expect_nonempty:{origin}:{int(exp[0] == 'ok' and len(exp[1]) >= 1)}")
+    if exp[0] == "err":
+        ctx.stat("expect:InfiniteLanguageException")
+    else:
+        ctx.stat("expect:empty_output" if not exp[1] else ("expect:prefix" if p["n"] <= len(exp[1]) else "expect:exhausted"))
+    for b in bad:
+        ctx.prop_fail(f"successors{p}: {b}", dict(describe(d, p), what=b), None)
+    if ctx.evaluations % 2999 == 1:
+        ctx.sample(dict(describe(d, p), real=obs["got"], expected=exp))
+    if bad:
+        return
+    compare_with_model(ctx, d, enc, sy, p, obs)
+
+
+def finding_case(ctx: Ctx, d: DFA, enc: str, sy, shape: dict, p: dict, kind: str):
+    """F13 / F14 probes: inside the literal domain, the code raises.  Reported as property
+    failures under the finding keys; the model must show the same behaviour (negative theorems
+    C14_foreign_start_raises, C14_empty_alphabet)."""
+    bad, obs = prop_finding(d, p, shape, kind)
+    ctx.case((enc, json.dumps(p, sort_keys=True)) if len(d.states) >= 2 else None)
+    ctx.stat(f"finding_probe:{kind}")
+    ctx.stat(f"finding_probe:{kind}:{'reverse' if p['reverse'] else 'forward'}")
+    for msg, fk in bad:
+        ctx.stat(f"finding_probe:{kind}:fails" + ("" if fk else ":unexpected_way"))
+        ctx.prop_fail(f"successors on {d!r} with {p}: {msg}", dict(describe(d, p), what=msg), fk)
+    if not bad:
+        ctx.stat(f"finding_probe:{kind}:holds(" + ("infinite language refused first" if p["reverse"] and not shape["finite"]
+                                                   else "n=0" if p["n"] == 0 else "no exception") + ")")
+    compare_with_model(ctx, d, enc, sy, p, obs)
+
+
 def stat_only(ctx: Ctx, d: DFA, enc: str, sy, shape: dict, p: dict):
-    """Outside the domain: only compare exception classes / outputs of model and code, count."""
+    """Outside the domain (non-injective key = not an ordering; forward direction on an infinite
+    language without max_length): only compare exception classes / outputs of model and code, count."""
     if not p["reverse"] and not shape["finite"] and p["max"] is None:
         ctx.stat("outside:forward_infinite_without_max(skipped)")
         return
     got = real_successors(d, p)
     m = model_succ(ctx, enc, sy, p)
     mo = model_as_observation(m, p["n"])
-    kind = ("empty_alphabet" if not d.input_symbols else
-            "foreign_symbol" if p["start"] is not None and any(ch not in d.input_symbols for ch in p["start"]) else
-            "non_injective_key")
+    kind = "non_injective_key"
     if mo == got:
         ctx.stat(f"outside:{kind}:model_agrees:{got[1] if got[0] == 'err' else 'ok'}")
     elif got[0] == "ok" and mo[0] == "ok" and mo[1][: len(got[1])] == got[1]:
@@ -267,16 +430,49 @@ def rand_start(rng, d: DFA, bw, shape):
     return gen.rand_word(rng, sy, 6)
 
 
+def aim_at_word(rng, d: DFA, bw, p: dict) -> bool:
+    """Re-draw window and start of `p` so that the expected output is non-empty: pick an accepted
+    word t, a window containing |t| and a start on the right side of t (None, '', an accepted
+    word, a prefix / an extension, an unreadable or a random string — whatever compares right)."""
+    words = [w for ws in bw.values() for w in ws]
+    if not words:
+        return False
+    sy = sorted(d.input_symbols)
+    kl = L.key_lex(p["key"])
+    t = rng.choice(words)
+    p["min"] = rng.choice([0, 0, rng.randint(0, len(t)), len(t)])
+    if p["max"] is not None or rng.random() < 0.5:
+        p["max"] = len(t) + rng.choice([0, 0, 1, 2])
+    right_side = (lambda s: kl(s) > kl(t)) if p["reverse"] else (lambda s: kl(s) < kl(t))
+    for _ in range(8):
+        s0 = rand_start(rng, d, bw, None)
+        if s0 is None or right_side(s0) or (s0 == t and not p["strict"]):
+            p["start"] = s0
+            return True
+    r = rng.random()
+    if r < 0.3:
+        p["start"], p["strict"] = t, False
+    elif p["reverse"]:
+        p["start"] = t + "".join(rng.choice(sy) for _ in range(rng.randint(1, 2)))      # an extension is greater
+    else:
+        p["start"] = t[: rng.randint(0, len(t) - 1)] if t else None                       # a proper prefix is smaller
+    return True
+
+
 def rand_params(rng, d: DFA, bw, shape, hi):
     start = rand_start(rng, d, bw, shape)
-    reverse = rng.random() < (0.5 if shape["finite"] else 0.12)
+    reverse = rng.random() < (0.5 if shape["finite"] else 0.05)
     mn = rng.choice([0, 0, 0, 0, 1, 2, 3])
     if not shape["finite"] and not reverse:
         mx = rng.randint(0, hi)
     else:
         mx = rng.choice([None, None, rng.randint(0, hi)])
-    p = dict(start=start, strict=rng.random() < 0.5, key=L.rand_key(rng, d.input_symbols), reverse=reverse,
-             min=mn, max=mx, n=0)
+    key = L.rand_key(rng, d.input_symbols)
+    p = dict(start=start, strict=rng.random() < 0.5, key=key, keymode=pick_keymode(rng, d.input_symbols, key),
+             reverse=reverse, min=mn, max=mx, n=0)
+    if (shape["finite"] or not reverse) and rng.random() < 0.7:
+        if aim_at_word(rng, d, bw, p) and p["max"] is not None:
+            p["max"] = min(p["max"], hi)        # the brute-force oracle enumerates up to max
     return p
 
 
@@ -285,6 +481,9 @@ def set_n(rng, d, p, shape):
     total = len(exp[1]) if exp[0] == "ok" else 1
     r = rng.random()
     p["n"] = total + 1 if r < 0.6 else rng.randint(0, total + 1) if r < 0.9 else 1
+    if p["n"] >= 1 and rng.random() < 0.25:
+        p["split"] = dict(cut=rng.randint(0, min(p["n"], total + 1)),
+                          between=[rng.choice(BETWEEN) for _ in range(rng.choice([1, 1, 2]))])
     return p
 
 
@@ -305,7 +504,7 @@ def check_dfa_random(ctx: Ctx, d: DFA, origin: str, cases: int):
         return
     bw = L.brute_words(d, hi)
     ctx.stat("lang:empty" if shape["empty"] else ("lang:finite" if shape["finite"] else "lang:infinite"))
-    for _ in range(cases):
+    for _ in range(1 if shape["empty"] else cases):
         p = set_n(rng, d, rand_params(rng, d, bw, shape, hi), shape)
         check_case(ctx, d, enc, sy, shape, p, origin)
 
@@ -341,11 +540,63 @@ def corpus():
     yield DFA.empty_language(ab), dict(start="a", strict=False, key=kab, reverse=True, min=0, max=None, n=2)
 
 
+def window_with_a_word(rng, windows, bw_lengths):
+    """A window (min, max) that contains the length of some accepted word, if there is one."""
+    good = [(mn, mx) for mn, mx in windows if any(mn <= k and (mx is None or k <= mx) for k in bw_lengths)]
+    return rng.choice(good) if good else rng.choice(windows)
+
+
+def finding_probes(ctx: Ctx):
+    """F13 / F14 (open findings): produced on every run — a fixed family plus random ones."""
+    rng = ctx.rng
+    ab = {"a", "b"}
+    fin = DFA.from_finite_language(ab, {"", "a", "ab", "b", "ba", "bb"})
+    uni = DFA.universal_language(ab)
+    kab = {"a": 0, "b": 1}
+    fixed = []
+    for d in (fin, uni):
+        for start in ("ac", "c", "cab", "a#b"):
+            for rev in (False, True):
+                for mode in ("none", "int"):
+                    fixed.append((d, dict(start=start, strict=rev, key=kab, keymode=mode, reverse=rev, min=0,
+                                          max=3 if d is uni else None, n=3)))
+    for d, p in fixed:
+        enc, st, sy = enc_dfa(d)
+        check_case(ctx, d, enc, sy, L.language_shape(d), p, "finding_probe")
+    for _ in range(ctx.budget(40, 1200)):
+        d, kind = L.shaped_dfa(rng, 4)
+        enc, st, sy = enc_dfa(d)
+        shape = L.language_shape(d)
+        hi = hi_for(d, shape)
+        if len(d.input_symbols) ** hi > 3000:
+            continue
+        bw = L.brute_words(d, hi)
+        p = rand_params(rng, d, bw, shape, hi)
+        w = list(p["start"] or "") + [gen.foreign_symbol(d.input_symbols)] * rng.choice([1, 1, 2])
+        rng.shuffle(w)
+        p["start"] = "".join(w)
+        p["n"] = rng.choice([0, 1, 2, 5])
+        check_case(ctx, d, enc, sy, shape, p, "finding_probe")
+    for finals in ({0}, set()):
+        empty_alpha = DFA(states={0}, input_symbols=set(), transitions={0: {}}, initial_state=0, final_states=finals)
+        enc, st, sy = enc_dfa(empty_alpha)
+        for start in (None, ""):
+            for rev in (False, True):
+                for mode in ("none", "int"):
+                    check_case(ctx, empty_alpha, enc, sy, L.language_shape(empty_alpha),
+                               dict(start=start, strict=False, key={}, keymode=mode, reverse=rev, min=0, max=None, n=2),
+                               "finding_probe")
+
+
 def run(ctx: Ctx):
     rng = ctx.rng
-    for d, p in corpus():
+    for i, (d, p) in enumerate(corpus()):
         enc, st, sy = enc_dfa(d)
-        check_case(ctx, d, enc, sy, L.language_shape(d), dict(p), "corpus")
+        p = dict(p)
+        if codepoint_order(d.input_symbols, p["key"]) and i % 2 == 0:
+            p["keymode"] = "none"
+        check_case(ctx, d, enc, sy, L.language_shape(d), p, "corpus")
+    finding_probes(ctx)
     # ---- bounded-exhaustive
     thorough = ctx.thorough()
     windows = [(mn, mx) for mn in (0, 1, 2, 3) for mx in (None, 0, 1, 2, 3)]
@@ -354,57 +605,72 @@ def run(ctx: Ctx):
         for d in gen.all_dfas(n_states, ("a", "b")):
             enc, st, sy = enc_dfa(d)
             shape = L.language_shape(d)
+            lengths = [k for k, h in enumerate(L.length_profile(d, 4)) if h]
             for start in starts_upto(("a", "b"), 3):
                 for rev in (False, True):
-                    if thorough:
-                        combos = [(s, k, w) for s in (True, False) for k in keys for w in windows]
+                    refused = rev and not shape["finite"]    # InfiniteLanguageException whatever the rest
+                    dull = refused or shape["empty"]         # … or nothing to yield whatever the rest
+                    if dull and not thorough and rng.random() < 0.8:
+                        continue
+
+                    def draw():
+                        key = rng.choice(keys)
+                        mn, mx = window_with_a_word(rng, windows, lengths) if rng.random() < 0.7 else rng.choice(windows)
+                        return dict(start=start, strict=rng.random() < 0.5, key=key, reverse=rev, min=mn, max=mx, n=0)
+
+                    if thorough and not refused:
+                        combos = [dict(start=start, strict=s_, key=k, reverse=rev, min=mn, max=mx, n=0)
+                                  for s_ in (True, False) for k in keys for (mn, mx) in windows]
                     else:
-                        combos = [(rng.random() < 0.5, rng.choice(keys), rng.choice(windows)) for _ in range(2)]
-                    for strict, key, (mn, mx) in combos:
-                        p = dict(start=start, strict=strict, key=key, reverse=rev, min=mn, max=mx, n=0)
+                        combos = []
+                        for _ in range(1 if dull else 2):
+                            cands = [draw() for _ in range(1 if dull else 4)]
+                            if not dull and rng.random() < 0.85:
+                                # prefer arguments for which there is something to yield
+                                good = [c for c in cands if in_domain(d, c, shape) and expected_of(d, c, shape)[1]]
+                                combos.append(good[0] if good else cands[0])
+                            else:
+                                combos.append(cands[0])
+                    for p in combos:
+                        p["keymode"] = pick_keymode(rng, ("a", "b"), p["key"])
                         if not in_domain(d, p, shape):
                             continue
                         exp = expected_of(d, p, shape)
                         total = len(exp[1]) if exp[0] == "ok" else 1
                         p["n"] = total + 1 if rng.random() < 0.8 else rng.randint(0, total)
+                        if p["n"] >= 2 and rng.random() < 0.1:
+                            p["split"] = dict(cut=rng.randint(0, p["n"]), between=[rng.choice(BETWEEN)])
                         check_case(ctx, d, enc, sy, shape, p, "exhaustive")
     ctx.exhaustive("all DFAs (complete and partial, all final sets) with ≤2 states over {a,b} × start ∈ {None} ∪ all "
                    "strings of length ≤3 × both directions × "
-                   + ("both strictness values × both key orders × windows min ∈ 0..3, max ∈ {None,0..3}"
-                      if thorough else "2 sampled (strictness, key order, window) combinations"))
+                   + ("both strictness values × both key orders × windows min ∈ 0..3, max ∈ {None,0..3} (reverse on an "
+                      "infinite language, refused whatever the rest: 1 sampled combination)"
+                      if thorough else "2 sampled (strictness, key order, window) combinations, preferring those with a "
+                                       "non-empty expected output (empty languages and reverse on an infinite language, "
+                                       "where the answer does not depend on the rest: 1 combination for a 20 % sample)"))
     # ---- shaped random
-    for _ in range(ctx.budget(500, 14000)):
+    for _ in range(ctx.budget(1100, 14000)):
         d, kind = L.shaped_dfa(rng, 6)
         ctx.stat(f"kind:{kind}")
         check_dfa_random(ctx, d, "random", 6)
-    # ---- outside the domain: counted only
-    for _ in range(ctx.budget(60, 1500)):
+    # ---- outside the domain (a non-injective key is not an ordering): counted only
+    for _ in range(ctx.budget(25, 600)):
         d, kind = L.shaped_dfa(rng, 4)
-        if not d.input_symbols:
-            continue
         enc, st, sy = enc_dfa(d)
         shape = L.language_shape(d)
         hi = hi_for(d, shape)
-        if len(d.input_symbols) ** hi > 3000:
+        if len(d.input_symbols) < 2 or len(d.input_symbols) ** hi > 3000:
             continue
         bw = L.brute_words(d, hi)
         p = rand_params(rng, d, bw, shape, hi)
-        r = rng.random()
-        if r < 0.6:
-            w = list(p["start"] or "") + [gen.foreign_symbol(d.input_symbols)]
-            rng.shuffle(w)
-            p["start"] = "".join(w)
-        else:
-            vals = list(p["key"].values())
-            p["key"] = {c: rng.choice(vals[:1] + [0]) for c in p["key"]}
+        vals = list(p["key"].values())
+        p["key"] = {c: rng.choice(vals[:1] + [0]) for c in p["key"]}
+        if p["keymode"] in ("none", "none_explicit"):
+            p["keymode"] = "int"
         p["n"] = 5
-        stat_only(ctx, d, enc, sy, shape, p)
-    empty_alpha = DFA(states={0}, input_symbols=set(), transitions={0: {}}, initial_state=0, final_states={0})
-    enc, st, sy = enc_dfa(empty_alpha)
-    for start in (None, ""):
-        for rev in (False, True):
-            stat_only(ctx, empty_alpha, enc, sy, L.language_shape(empty_alpha),
-                      dict(start=start, strict=False, key={}, reverse=rev, min=0, max=None, n=2))
+        p.pop("split", None)
+        if domain_kind(d, p, shape) == "non_injective_key":
+            stat_only(ctx, d, enc, sy, shape, p)
 
 
 def replay(ctx: Ctx, path: str) -> int:
@@ -412,7 +678,12 @@ def replay(ctx: Ctx, path: str) -> int:
     rp = data.get("replay", data)
     d = eval(rp["automaton"], {"DFA": DFA, "frozenset": frozenset})
     p = rp["params"]
-    bad, obs = prop_succ(d, p, L.language_shape(d))
+    shape = L.language_shape(d)
+    kind = domain_kind(d, p, shape)
+    if kind in ("foreign_symbol", "empty_alphabet"):
+        bad = [m for m, _ in prop_finding(d, p, shape, kind)[0]]
+    else:
+        bad, obs = prop_succ(d, p, shape)
     if bad:
         print(f"VIOLATION property=C14 replay={path}")
         print("  " + bad[0])
